@@ -11,11 +11,17 @@ def main():
     for null in (True, False):
         c = dict(C, clampVec=clamp.clampvec(null))
         chk.unit('src/engine/engine_forward.c', 'clampVec', c, 'math', 'fp', prefix='[index=%s]' % ('NULL' if null else 'given'))
+    chk.unit('src/engine/engine_forward.c', 'clampVec', dict(C, clampVec=clamp.CLAMP_ANY), 'math', 'fp', prefix='[any-input]')
+    # the call site: mj_fwdActuation up to the exit of its control-check loop (prefix contract shared with C30): limited controls end inside
+    # ctrlrange unless clamping is disabled (or every control was zeroed because one was bad)
+    from contracts import actuation
+    chk.unit('src/engine/engine_forward.c', 'mj_fwdActuation', actuation.contracts(), 'math', 'fp', prefix='[prefix]')
     chk.unit('src/engine/engine_support.c', 'mj_actuatorDisabled', dict(C, mj_actuatorDisabled=clamp.DISABLED), 'math', 'fp')
     chk.unit('src/engine/engine_util_misc.c', 'mju_muscleDynamics', clamp.muscle_contracts(), 'math', 'real')
     chk.assumptions |= {'clampVec with an index array: the indices are distinct and in range (they are the awake-actuator / awake-dof lists)',
                         'limited ranges are ordered and free of NaN (checked by the model compiler)'}
-    chk.out_of_reach += ['mj_fwdActuation as a whole (650 lines: gain / bias formulas would be restated; transmission product is a sparse loop)',
+    chk.assumptions.add('mj_fwdActuation is verified as a PREFIX (entry .. exit of the control-check loop): stack allocator by its C19 contract, delayed controls (mj_readCtrl) arbitrary, timer callback effect-free')
+    chk.out_of_reach += ['mj_fwdActuation after the control check (activation dynamics, gain / bias formulas, force clamping, transmission product)',
                          'slider-crank, site and SO3 transmissions (engine_core_smooth.c mj_transmission)',
                          'muscle length-gain / force-velocity curves (mju_muscleGainLength, mju_muscleGain, mju_muscleBias)']
     return chk.finish()
